@@ -25,7 +25,7 @@ def run_impl(case):
     dut = WishboneCSRBridge(cbus, data_width=wdw if rnd.random() < .8 or ratio > 1 else None)
     wb = dut.wb_bus
     aw = len(wb.adr)
-    sim = Simulator(simutil.wrap(dut))
+    sim = simutil.simulator(simutil.wrap(dut), case)
     sim.add_clock(1e-6)
     style = rnd.choice(["abiding", "abiding", "abiding", "random"])
     lines = [f"case {ratio} {cdw} {int(style == 'abiding')}"]
